@@ -198,9 +198,89 @@ def run(chk):
                 chk.count('undetermined_' + ('ok' if res.startswith('ok') else 'refused'))
         if o[-1] != 'ok live=0':
             chk.violation('leak', '%s %dx%d: allocations remain after an add/solve history with failed attempts: %s' % (typ, n, n, o[-1]), sc.lines)
+    unknown_histories(chk, exe, rng, (2 if quick else 15) * (3 if broken else 1))
     chk.samples = [[l[:100] for l in runs[0][2].lines[:6]]]
     if broken and not chk.violations:
         chk.violation('obligation', 'proof/correspondence obligations that no longer check:\n' + '\n'.join(broken[:30]), nofail=True)
+
+
+def unknown_histories(chk, exe, rng, reps):
+    """standards with unknown parameters in the list: while the standards supply fewer equations than error terms of the linear systems
+    plus unknown parameters, the solve must fail with EDOM; the complete list must solve, recover the parameters and correct a device"""
+    from props import c02
+    for _ in range(reps):
+        for typ in ('T8', 'U8', 'TE10', 'UE10', 'UE14', 'E12'):
+            p = 2
+            sc = c02.Sc(rng, typ, p, p, rng.choice([1, 2]), form=rng.choice(['m', 'ab'])).begin()
+            leak = typ in ('TE10', 'UE10', 'UE14', 'E12')
+            # error terms inside the linear system(s), one free per system (vnacal_new(3)); E12 is solved as UE14: p systems of 2p+2 terms
+            x_length = {'T8': 4 * p - 1, 'U8': 4 * p - 1, 'TE10': 4 * p - 1, 'UE10': 4 * p - 1, 'UE14': p * (2 * p + 1), 'E12': p * (2 * p + 1)}[typ]
+            R = complex(rng.uniform(-0.9, -0.6), rng.uniform(-0.3, 0.3))
+            Q = complex(rng.uniform(-0.3, 0.3), rng.uniform(-0.3, 0.3))
+            hR = sc.unknown(c02.guess_near(rng, R, 0.1), R)
+            hQ = sc.unknown(c02.guess_near(rng, Q, 0.1) + 0.02, Q)
+            pool = []
+            for port in (1, 2):
+                for code in (calsim.SHORT, calsim.OPEN, calsim.MATCH):
+                    pool.append((1, None, lambda port=port, code=code: sc.add_reflect(port, code)))
+                pool.append((1, hR, lambda port=port: sc.std1(port, hR, R)))
+                pool.append((1, hQ, lambda port=port: sc.std1(port, hQ, Q)))
+            pool.append((4, None, lambda: sc.add_through(1, 2)))
+            rng.shuffle(pool)
+            eq_upper, used = 0, set()
+            steps = []
+            for cells, hd, adder in pool:
+                adder()
+                # upper bound on the equations of the linear systems: cells with a signal path; without leakage terms every measured cell counts
+                eq_upper += cells if leak else p * p
+                if hd is not None:
+                    used.add(hd)
+                sc.lines.append('cal solve %d' % sc.n)
+                steps.append((len(sc.lines) - 1, eq_upper < x_length + len(used), eq_upper, len(used)))
+            ivals = []
+            for hd, truth in ((hR, R), (hQ, Q)):
+                sc.lines.append('cal get_parameter_value %d %d %s' % (sc.c, hd, vlib.d2h(sc.fvec[0])))
+                ivals.append((len(sc.lines) - 1, truth))
+            sc.add_calibration()
+            dut = sc.random_dut()
+            sc.lines.append(sc.apply_line(0, dut))
+            iapply = len(sc.lines) - 1
+            sc.lines += ['cal free 0', 'cal live']
+            out, rc, err = vlib.run_lines(exe, sc.lines, timeout=600)
+            chk.evaluations += 1
+            tag = 'with unknown parameters, %s 2x2 %s' % (typ, sc.form)
+            if rc != 0 or len(out) != len(sc.lines):
+                chk.violation('sanitizer-unknown', '%s: crashed / sanitizer report in an add/solve history:\n%s' % (tag, err[-1200:]), sc.lines[:len(out) + 1])
+                return
+            for (isolve, toofew, eq, nu) in steps:
+                res = out[isolve]
+                if toofew:
+                    if res.startswith('ok'):
+                        chk.violation('too-few-accepted-unknown', '%s: at most %d equations for %d error terms + %d unknown parameters, yet vnacal_new_solve succeeded' % (tag, eq, x_length, nu), sc.lines[:isolve + 1])
+                        return
+                    if 'EDOM' not in res:
+                        chk.violation('too-few-errno-unknown', '%s: too few standards (at most %d equations for %d + %d unknowns) reported as %s instead of EDOM' % (tag, eq, x_length, nu, res[:60]), sc.lines[:isolve + 1])
+                        return
+                    chk.count('too_few_edom_unknown')
+                    chk.distinct.add(('unk', typ, eq, nu))
+            last = steps[-1][0]
+            if not out[last].startswith('ok'):
+                chk.violation('complete-refused-unknown', '%s: the complete list (three known reflects and two unknown reflects per port, a through) does not solve: %s' % (tag, out[last][:80]), sc.lines[:last + 1])
+                return
+            for i, truth in ivals:
+                v = vlib.hs2c(out[i].split()[-2:])[0] if out[i].startswith('ok') else complex('nan')
+                if not abs(v - truth) <= 1e-4:
+                    chk.violation('complete-wrong-unknown', '%s: unknown parameter solved as %r, truth %r' % (tag, v, truth), sc.lines[:i + 1])
+                    return
+            ok, S = calsim.parse_apply(out[iapply], p)
+            e = max(np.abs(S[f] - dut[f]).max() for f in range(len(dut))) if ok else float('inf')
+            if not e <= 1e-4:
+                chk.violation('complete-apply-unknown', '%s: the calibration from the complete list does not correct an independent device (error %.3e)' % (tag, e), sc.lines[:iapply + 1])
+                return
+            if out[-1] != 'ok live=0':
+                chk.violation('leak-unknown', '%s: allocations remain: %s' % (tag, out[-1]), sc.lines)
+                return
+            chk.count('complete_solved_unknown')
 
 
 def replay(chk, path):
